@@ -206,12 +206,16 @@ def _equal_obs(K, u, v):
     return u == v
 
 
-def h_route(cname, route, n, opset, only=None):
+def h_route(cname, route, n, opset, only=None, build_lsb0=False):
     def h(K):
         import bitstring
         cls = classes()[cname]
         try:
-            X, e = build(K, cls, route, n)
+            bitstring.options.lsb0 = build_lsb0      # offsets and lengths of a construction route select stored bits in both modes
+            try:
+                X, e = build(K, cls, route, n)
+            finally:
+                bitstring.options.lsb0 = False
             if len(e) != n:
                 return K.fail('harness: expected content has the wrong length', got=len(e))
             if type(X) is not cls:
@@ -306,6 +310,11 @@ def conditions(tier):
                         add(f'C08.{nm}[{c},{route},n={n}]', h_route(c, route, n, 'lsb0', [nm]), f'route {route}, length {n}; {nm}', route=route, n=n, group='lsb0')
                     continue
                 add(f'C08.lsb0[{c},{route},n={n}]', h_route(c, route, n, 'lsb0'), f'route {route}, length {n}; lsb0 index/slice/find/iter', route=route, n=n, group='lsb0')
+    for c in (['Bits', 'BitArray'] if q else CLS):
+        for route in ['file-offset-len', 'file-offset', 'file-len', 'handle-len', 'bytes-window', 'bitarray-window', 'bitarray-little-window']:
+            for n in ([4] if q else [5, 8]):
+                add(f'C08.basic[{c},{route},n={n},built-in-lsb0]', h_route(c, route, n, 'plain', ['len', 'bin', 'tobytes', 'uint', 'eq-twin', 'hash', 'count1'], build_lsb0=True),
+                    f'route {route} (logical length {n}) taken while options.lsb0 is set; basic observables afterwards in msb0 mode', route=route, n=n, group='built-in-lsb0')
     for c in (['BitArray'] if q else ['BitArray', 'BitStream']):
         for route in (['file-len', 'bytes-window'] if q else ['file-len', 'file-offset-len', 'handle-len', 'bytes-window', 'bitarray-window', 'slice-of-larger']):
             for n in ([4] if q else [5, 8]):
